@@ -157,11 +157,22 @@ def run_unit(vc_path, canary=False, rlimit=None, seed=None, tag=""):
     """returns dict with status ok|violated|undecided"""
     res = {"vc": os.path.basename(vc_path), "canary": canary}
     t0 = time.time()
+    res["lenient"] = False
     try:
         g = gen.generate(vc_path, BUILD, canary=canary)
     except gen.LostAnchor as e:
-        res.update(status="undecided", reason="lost-anchor: %s" % e, unit=os.path.basename(vc_path)[:-3])
-        return res
+        # degrade: drop the proof hints / loop contracts whose anchors are gone and see what the verifier says
+        res["lenient"] = True
+        res["lost_first"] = str(e)
+        try:
+            g = gen.generate(vc_path, BUILD, canary=canary, lenient=True)
+        except gen.LostAnchor as e2:
+            res.update(status="undecided", reason="lost-anchor: %s" % e2, unit=os.path.basename(vc_path)[:-3])
+            return res
+        except (gen.ContractSyntax, ValueError, KeyError, IndexError) as e2:
+            res.update(status="undecided", reason="generator: %r" % e2, unit=os.path.basename(vc_path)[:-3])
+            return res
+        res["lost_hints"] = g.get("lost_hints", [])
     except (gen.ContractSyntax, ValueError, KeyError, IndexError) as e:
         res.update(status="undecided", reason="generator: %r" % e, unit=os.path.basename(vc_path)[:-3])
         return res
